@@ -63,6 +63,9 @@ class MultiIndexConverter(Transformer):
         # Restore original MultiIndexes
         for dim, original_index in reference_indexes.items():
             if dim in X_inverse_transformed.dims:
+                if reference == "transform" and X_inverse_transformed.sizes[dim] != original_index.sizes[dim]:
+                    # entirely missing samples were dropped: keep the labels of the surviving positions
+                    original_index = original_index.isel({dim: X_inverse_transformed.coords[dim].values})
                 X_inverse_transformed.coords[dim] = original_index
                 # Set indexes to original MultiIndexes
                 indexes = [idx for idx in original_index.indexes.keys() if idx != dim]
